@@ -85,4 +85,34 @@ theorem removed_node_key_zero (s s' : St) (p c c' : Nat) (hi : Inv s) (h : step 
   rw [cntL_roots] at this
   omega
 
+-- keys as a function of node identity (added 2026-09-23)
+/-- two attached nodes with the same key are the same node (pairwise distinct, stated over node
+    identities rather than walk positions; no hypothesis on the ids is needed for this direction) -/
+theorem key_injective (s : St) (i j : Nat) (hi : i ∈ idsOf s.doc) (hj : j ∈ idsOf s.doc)
+    (h : orderKey s i = orderKey s j) : i = j := by
+  simp only [orderKey, List.contains_iff_mem, hi, hj, if_true, Nat.add_right_cancel_iff] at h
+  have := List.getElem_idxOf (List.idxOf_lt_length_of_mem hi)
+  have h2 := List.getElem_idxOf (List.idxOf_lt_length_of_mem hj)
+  simp only [h] at this
+  rw [← this, h2]
+
+/-- a key decides attachment: key 0 exactly for the nodes outside the document tree -/
+theorem key_zero_iff_detached (s : St) (i : Nat) : orderKey s i = 0 ↔ i ∉ idsOf s.doc := by
+  constructor
+  · intro h hm; have := attached_key_pos s i hm; omega
+  · exact detached_key_zero s i
+
+/-- the keys in use are exactly 1..n, n the number of attached nodes: no gap, nothing beyond -/
+theorem key_le_count (s : St) (i : Nat) : orderKey s i ≤ (idsOf s.doc).length := by
+  unfold orderKey; split
+  · next h => have := List.idxOf_lt_length_of_mem (List.contains_iff_mem.mp h); omega
+  · omega
+
+/-- at every point of any edit history: distinct attached nodes have distinct non-zero keys -/
+theorem distinct_nodes_distinct_keys (d : IDoc) (ops : List Op) (i j : Nat)
+    (hi : i ∈ idsOf (C12.run (buildSt d) ops).doc) (hj : j ∈ idsOf (C12.run (buildSt d) ops).doc) (hne : i ≠ j) :
+    orderKey (C12.run (buildSt d) ops) i ≠ orderKey (C12.run (buildSt d) ops) j ∧
+    0 < orderKey (C12.run (buildSt d) ops) i ∧ 0 < orderKey (C12.run (buildSt d) ops) j :=
+  ⟨fun h => hne (key_injective _ i j hi hj h), attached_key_pos _ i hi, attached_key_pos _ j hj⟩
+
 end XmlRs.C14
